@@ -35,7 +35,15 @@ func runC05(c *Ctx) {
 	// highest-priority rules only if that list is sorted, also after incremental updates, which keep it
 	// sorted through the binary search (C08-H1b: a miss returns the insertion point and 0)
 	c.ruleBinarySearch("B8-container-list-stays-sorted")
-	c.Min("B8-container-list-stays-sorted", 3)
+	// ... and hold every loaded rule exactly once only if the merge keeps list, name map and index in
+	// step (C08-H2..H5 on both copies of the merge): an index rebuilt once after the loop lets the second
+	// moved rule of one update delete a neighbour and leave its own old version in the list
+	for _, spec := range [][3]string{{"builder", "RuleBuilder", "BuildRuleWithIncremental"}, {"engine", "", "updateIncremental"}} {
+		if f := c.MustFn("B8-container-list-stays-sorted", spec[0], spec[1], spec[2]); f != nil {
+			c.mergeModel("B8-container-list-stays-sorted", f)
+		}
+	}
+	c.Min("B8-container-list-stays-sorted", 33)
 	// a rule that faults fails: RuleEntity.Execute turns a panic of the rule body into its (named) error
 	// result (C09-R1 for this function); without that a faulting rule counts as a success and whatever the
 	// model makes depend on "nothing before failed" runs all the same
